@@ -1,7 +1,7 @@
 #!/usr/bin/env python3
 """Runs the checks against harmless (property-preserving) changes and records which checks stay silent.
 
-usage: benign_eval.py <root> [area ...]
+usage: [BENIGN_SUFFIX=b] benign_eval.py <root> [area ...]   (suffix: names of a further round, e.g. queue-1b)
   <root>/<area>/<k>/{patch.diff, meta.json} as produced by a sub-agent (meta.json lists the properties
   the change must preserve).  For each: the patch is confirmed to build and pass the suite in a scratch
   worktree, applied to /repo, the listed checks are run (quick tier, no escalation search, evidence
@@ -9,11 +9,15 @@ usage: benign_eval.py <root> [area ...]
 """
 import json, os, re, shutil, subprocess, sys
 ROOT = os.path.dirname(os.path.dirname(os.path.abspath(__file__)))
+# the tree the checks are run in and the repository they are run against (default: this tree and /repo;
+# an isolated copy of both can be named so that the evaluation does not occupy /repo)
+RUN_ROOT = os.environ.get("BENIGN_RUN_ROOT", ROOT)
+REPO = os.environ.get("BENIGN_REPO", "/repo")
 EXTRA = {"queue": ["C19"], "mmio": ["C08"], "init": ["C16", "C17", "C20"], "console": ["C07"], "net": ["C07", "C08"], "vsock": ["C19", "C07"], "cmd": ["C09"], "blk": ["C13", "C08"], "pci": ["C13"]}
 
 def sh(cmd, cwd=None, timeout=3600):
     p = subprocess.run(cmd, cwd=cwd, shell=True, stdout=subprocess.PIPE, stderr=subprocess.STDOUT, text=True, timeout=timeout,
-                       env=dict(os.environ, CARGO_NET_OFFLINE="true", VERIF_NO_ESCALATE="1", VERIF_EVIDENCE_DIR=os.path.join(ROOT, "out", "evidence_seeded")))
+                       env=dict(os.environ, CARGO_NET_OFFLINE="true", VERIF_NO_ESCALATE="1", VERIF_REPO=REPO, VERIF_EVIDENCE_DIR=os.path.join(RUN_ROOT, "out", "evidence_seeded")))
     return p.returncode, p.stdout
 
 def main():
@@ -25,7 +29,7 @@ def main():
             patch = os.path.join(d, "patch.diff")
             if not os.path.exists(patch):
                 continue
-            name = f"{area}-{k}"
+            name = f"{area}-{k}{os.environ.get('BENIGN_SUFFIX', '')}"
             dst = os.path.join(ROOT, "benign", name)
             if os.path.exists(os.path.join(dst, "meta.json")):
                 continue
@@ -36,7 +40,7 @@ def main():
             # confirm: builds + suite in a scratch worktree
             wt = f"/tmp/benwt_{name}"
             sh(f"git -C /repo worktree remove --force {wt}; rm -rf {wt}")
-            sh(f"git -C /repo worktree add -q {wt} HEAD && cp /repo/Cargo.lock {wt}/")
+            sh(f"git -C /repo worktree add -q --detach {wt} HEAD && cp /repo/Cargo.lock {wt}/")
             try:
                 rc, out = sh(f"git apply {patch}", cwd=wt)
                 ok = rc == 0
@@ -51,20 +55,20 @@ def main():
             finally:
                 sh(f"git -C /repo worktree remove --force {wt}; rm -rf {wt}")
             checks = {}
-            rc, out = sh("git -C /repo status --short")
+            rc, out = sh(f"git -C {REPO} status --short")
             if out.strip():
                 print("repo dirty"); sys.exit(1)
             if res["applies_and_suite_passes"]:
-                rc, out = sh(f"git -C /repo apply {patch}")
+                rc, out = sh(f"git -C {REPO} apply {patch}")
                 try:
                     for p in props:
-                        rc, out = sh(f"./check {p} --tier quick", cwd=ROOT)
+                        rc, out = sh(f"./check {p} --tier quick", cwd=RUN_ROOT)
                         v = [l for l in out.splitlines() if l.startswith("VIOLATION")]
                         first = [l for l in out.splitlines() if l.startswith("#")][:2]
                         checks[p] = {"verdict": ("ALARM-concrete" if v and "no-failing-input-found" not in v[0] else "alarm-no-failing-input" if v else "silent"), "first": first}
                         print(name, p, checks[p]["verdict"], (first[0][:160] if first else ""), flush=True)
                 finally:
-                    sh("git -C /repo checkout -- . && git -C /repo clean -fdq -e Cargo.lock -e target")
+                    sh(f"git -C {REPO} checkout -- . && git -C {REPO} clean -fdq -e Cargo.lock -e target")
             res["checks"] = checks
             os.makedirs(dst, exist_ok=True)
             shutil.copy(patch, os.path.join(dst, "patch.diff"))
